@@ -112,7 +112,7 @@ func (c13) Classify(o *Outcome) {
 		defer os.RemoveAll(dir)
 		os.WriteFile(filepath.Join(dir, "in.y"), []byte(text), 0644)
 		for _, args := range [][]string{{"generate", "go", "in.y", "out.go"}, {"generate", "go", "-o", "-u", "in.y", "out.go"}, {"generate", "typescript", "in.y", "out.ts"}, {"debug", "in.y"}} {
-			res := runCLI(10, 90*time.Second, dir, args...)
+			res := runCLI(10, 5*time.Minute, dir, args...)
 			if res.Signal != "" || res.Exit == 137 || res.Exit == 152 {
 				o.Detail = fmt.Sprintf("(budget) in-process run burnt 5 CPU-seconds and `yaccgo %v` on the same %d-byte input was killed by RLIMIT_CPU=10s (%s)\n%s", args, len(text), res.Signal, o.Detail)
 				c13Confirmed++
@@ -129,7 +129,7 @@ func (c13) Classify(o *Outcome) {
 		os.MkdirAll(dir, 0755)
 		defer os.RemoveAll(dir)
 		os.WriteFile(filepath.Join(dir, "in.y"), []byte(text), 0644)
-		res := runCLI(10, 60*time.Second, dir, "generate", "go", "in.y", "out.go")
+		res := runCLI(10, 5*time.Minute, dir, "generate", "go", "in.y", "out.go")
 		switch {
 		case res.TimedOut:
 			o.Status = "violated"
@@ -289,7 +289,7 @@ func (p c13) Run(seed int64, tier string, idx int) Outcome {
 			default:
 				args = []string{"generate", "go", "-o", "-u", "in.y", "out.go"}
 			}
-			res := runCLI(10, 60*time.Second, dir, args...)
+			res := runCLI(10, 5*time.Minute, dir, args...)
 			o.count("eval:cli_runs", 1)
 			o.count("cli_cpu_ms_total", int(res.CPU*1000))
 			if res.Signal == "killed" || res.Signal == "cpu time limit exceeded" || res.Exit == 137 || res.Exit == 152 {
